@@ -6,6 +6,16 @@ import importlib.util
 spec = importlib.util.spec_from_file_location("verif", os.path.join(ROOT, "verif.py")); verif = importlib.util.module_from_spec(spec); spec.loader.exec_module(verif)
 
 TEXT = {
+ "C01": ("DESIGN 6/C01", "Seeded simulation of producers feeding update theta sketches from a source log with at-least-once redelivery, permutation and interleaved trim/reset/compact/copy/serialize; after every step the retained entries, theta, emptiness and exactness are compared with a reference model built on an independent MurmurHash3 and the documented canonicalisation. Histories and configurations are sampled.",
+         "lg_k 26 and lg_k > 12 are not exercised (memory/time); the model hash is checked against published vectors at start-up."),
+ "C02": ("DESIGN 6/C02", "Seeded simulation of an aggregator owning stateful theta union / intersection / a-not-b operators that receive input sketches in scheduler-chosen order, multiplicity and physical form with interleaved reads; the operator result is compared with the exact set-algebra model after every delivery, so order- and form-independence are implied. Sampled histories.",
+         "Input sketches' (theta, entries, emptiness) are taken from their public observation (C01 decides those); union p is 1."),
+ "C03": ("DESIGN 6/C03", "Seeded simulation: one logical stream reaches 8 differently configured HLL sketches in different orders and multiplicities with mid-history type conversion and restore; logical content (coupons / per-slot max registers) of every variant is compared with an independent coupon model after every step, plus cross-variant estimate agreement. Sampled streams.",
+         "Registers are read from the HLL_8 updatable image of a copy; lg_k above 12 (14 thorough) not exercised."),
+ "C04": ("DESIGN 6/C04", "Seeded simulation of an hll_union receiving sketches and raw items in scheduler order and multiplicity with reads (the deferred kxq/curMin rebuild) and resets interleaved; result lg_k and content compared with the model of everything delivered after every delivery. Sampled histories.",
+         "An empty input never lowers the expected lg_k; after reset() the resumed lg_k is not asserted (only <= lg_max_k); bounds of union results are a probe, not a verdict."),
+ "C05": ("DESIGN 6/C05", "Seeded simulation of CPC producers and a cpc_union with checkpoint/restore at every stage and unequal lg_k arrival orders; coupon counts against an independent (row,col) model, a public-API re-offer probe that decides matrix equality in every flavor, validate(), estimator-state restoration and the equal-(lg_k,C) estimate identity. Sampled histories.",
+         "lg_k above 10 (12 thorough) not exercised; matrix equality is decided by count equality plus re-offer (no private access)."),
  "C09": ("DESIGN 6/C09", "Seeded simulation of a log-structured sketch store: histories of updates/merges with checkpoints through both serialization APIs (headers, chunked streams, trailing records, torn and lost writes), crashes with recovery from the log, and continue-after-restore against the never-serialized object; every round trip is checked for byte equality of both writers, advertised sizes, exact stream consumption, observational equality and re-serialization. Sampled histories, so exploration.",
          "Assumes the adapters' obs() covers the public API of each family; unordered hash-table sections are compared after an independent canonicalisation written from the layout comments."),
  "C11": ("DESIGN 6/C11", "For each sampled valid image the fault space is enumerated completely (every strict prefix on the bytes and stream paths, every preamble byte x 8 replacement values on both paths) under ASan with exact-size buffers, a tracking allocator (leak after rejection, allocation budget) and a CPU watchdog; images are sampled by seed. Exhaustive per image, sampled over images.",
